@@ -402,6 +402,10 @@ structure PkgReq where
   /-- `ChecksumString()` of the handle, verbatim.  `expected` is what that string decodes to: the harness derives
   both from the one string, so equal `raw` goes with equal `expected` -/
   raw : Text := []
+  /-- round 5: what the repository answers to the LATER requests for the package URL within the same operation
+  (`fetched` is the answer to the first one; the last answer is repeated).  Today's `expandPackage` asks once
+  (`Impl.tail` has one `fetch`), so nothing below reads this field; `runTail` does, for any tail. -/
+  later : List (Option Apk) := []
   deriving DecidableEq, Repr
 
 inductive OpKind where
